@@ -2,11 +2,9 @@
   WS.Props.C19 — property theorems for C19 (proxy selection, no_proxy, CONNECT).
   Helper lemmas live in WS.Lemmas.{Py,NoProxy}.
 -/
-import WS.Lemmas.NoProxy
-import WS.Lemmas.B64
-import WS.Model.Proxy
+import WS.Lemmas.Proxy
 namespace WS.Props.C19
-open WS WS.Py WS.Lemmas.Py WS.Lemmas.NoProxy
+open WS WS.Py WS.Lemmas.Py WS.Lemmas.NoProxy WS.Lemmas.Proxy
 open WS.Model.NoProxy
 
 /-- generated fact: `_is_subnet_address` reads `0 <= int(netmask) <= 32`
@@ -19,64 +17,17 @@ theorem mask_bound : Gen.subnetMaskStrict = false ∧ Gen.subnetMaskBound = 32 :
 theorem proxy_shape : Gen.noProxyLabelBoundary = true ∧ Gen.proxyInfoNoProxyAlways = true ∧
     Gen.envProxyPasswordOrEmpty = true := by decide
 
-theorem inetAton_lt {s : Str} {n : Nat} (h : inetAton s = some n) : n < 2 ^ 32 := by
-  unfold inetAton at h
-  split at h
-  · next a b c d _ =>
-    cases ha : octet a <;> cases hb : octet b <;> cases hc : octet c <;> cases hd : octet d <;>
-      simp [ha, hb, hc, hd] at h
-    next va vb vc vd =>
-    have bound : ∀ (s : Str) (v : Nat), octet s = some v → v ≤ 255 := by
-      intro s v hv
-      unfold octet at hv
-      split at hv
-      · split at hv
-        · next hle => simp at hv; simp at hle; omega
-        · simp at hv
-      · simp at hv
-    have := bound a va ha; have := bound b vb hb; have := bound c vc hc; have := bound d vd hd
-    omega
-  · simp at h
-
-/-- `_is_subnet_address` recognises exactly the entries the Spec reads as `a/p`, `p ≤ 32`. -/
-theorem isSubnet_eq_cidr (e : Str) : isSubnetAddress e = (Spec.NoProxy.cidr? e).isSome := by
-  unfold isSubnetAddress Spec.NoProxy.cidr? isIpAddress maskInRange
-  rw [mask_bound.1, mask_bound.2]
-  generalize splitOn '/' e = l
-  rcases l with _ | ⟨a, _ | ⟨p, _ | ⟨q, r⟩⟩⟩ <;> simp
-  cases inetAton a <;> cases pyInt p <;> simp
-  next n => by_cases h : n ≤ 32 <;> simp [h]
-
 /-- **C19_cidr** — for every prefix length `p ≤ 32`, every network address and every host
     address (32-bit), the code's `ip & ((0xFFFFFFFF << (32-p)) & 0xFFFFFFFF) == net` says
     exactly: `net` has no host bits and `ip` agrees with it on the first `p` bits. -/
 theorem C19_cidr (a p h : Nat) (hp : p ≤ 32) (hh : h < 2 ^ 32) :
-    (h &&& ((0xFFFFFFFF <<< (32 - p)) &&& 0xFFFFFFFF) == a) = Spec.NoProxy.blockContains a p h := by
-  rw [and_mask h (32 - p) hh (by omega)]
-  unfold Spec.NoProxy.blockContains
-  rw [Bool.eq_iff_iff]
-  simp only [beq_iff_eq, Bool.and_eq_true]
-  exact div_mul_eq_iff h a (2 ^ (32 - p)) (Nat.pow_pos (by decide))
+    (h &&& ((0xFFFFFFFF <<< (32 - p)) &&& 0xFFFFFFFF) == a) = Spec.NoProxy.blockContains a p h :=
+  cidr_mask a p h hp hh
 
 example : Spec.NoProxy.blockContains 0x0A000001 32 0x0A000001 = true ∧
     Spec.NoProxy.blockContains 0x0A000000 8 0x0A636363 = true ∧
     Spec.NoProxy.blockContains 0x0A000001 8 0x0A000001 = false ∧
     Spec.NoProxy.blockContains 0 0 0xFFFFFFFF = true := by decide
-
-/-- under the guards of `_is_no_proxy_host` the network test cannot fail. -/
-theorem inNetwork_ok (host e : Str) (h a p : Nat) (hh : inetAton host = some h)
-    (he : Spec.NoProxy.cidr? e = some (a, p)) :
-    isAddressInNetwork host e = .ok (Spec.NoProxy.blockContains a p h) := by
-  unfold Spec.NoProxy.cidr? at he
-  unfold isAddressInNetwork
-  rw [hh]
-  generalize splitOn '/' e = l at he ⊢
-  rcases l with _ | ⟨sa, _ | ⟨sp, _ | ⟨q, r⟩⟩⟩ <;> simp at he
-  cases ha : inetAton sa <;> cases hq : pyInt sp <;> simp [ha, hq] at he
-  next va vp =>
-  obtain ⟨hle, rfl, rfl⟩ := he
-  simp only [ha, hq, show ¬ vp > 32 by omega, if_false]
-  rw [C19_cidr va vp h hle (inetAton_lt hh)]
 
 /-- **C19_domain** — the repaired suffix test is the label-boundary test:
     `hostname == d.lstrip('.') or hostname.endswith('.' + d.lstrip('.'))` holds iff the labels
@@ -249,31 +200,6 @@ theorem C19_useProxy (host : Str) (secure : Bool) (optHost : Str) (optPort : Nat
 
 /-! ### the tunnel -/
 
-theorem crlfLines_append (a b : Str) (h : '\r' ∉ a) :
-    Spec.NoProxy.crlfLines (a ++ '\r' :: '\n' :: b) = a :: Spec.NoProxy.crlfLines b := by
-  induction a with
-  | nil => simp [Spec.NoProxy.crlfLines]
-  | cons x xs ih =>
-    have hx : x ≠ '\r' := fun e => h (by simp [e])
-    have hxs : '\r' ∉ xs := fun e => h (by simp [e])
-    rw [List.cons_append, Spec.NoProxy.crlfLines]
-    · rw [ih hxs]; rfl
-    · intros; simp_all
-
-theorem splitOn_notin (c : Char) (s : Str) (h : c ∉ s) : splitOn c s = [s] := by
-  induction s with
-  | nil => rfl
-  | cons x xs ih =>
-    have hx : x ≠ c := fun e => h (by simp [e])
-    have hxs : c ∉ xs := fun e => h (by simp [e])
-    simp [splitOn, hx, ih hxs, consHead]
-
-theorem natStr_digits (n : Nat) : ∀ c ∈ natStr n, c.isDigit = true := by
-  intro c hc
-  unfold natStr at hc
-  rw [Nat.toList_repr] at hc
-  exact Nat.isDigit_of_mem_toDigits (by decide) (by decide) hc
-
 open WS.Model.Proxy in
 /-- **C19_connect_bytes** — for every host (without blank or CR), port and credentials, what
     `_tunnel` writes reads back under the Spec's grammar as
@@ -369,34 +295,6 @@ theorem C19_gate (reply : Str) :
     · subst hs; simp
     · have : (st == some 200) = false := by simpa using hs
       simp [this, hs]
-
-open WS.Model.Proxy in
-/-- the whole of `connect()` once the URL parsed, a decision was taken and a socket was opened. -/
-theorem connect_eq (v6ok : Str → Bool) (url : Str) (timeout : Nat) (sockopt : List String)
-    (p : ProxyInfo) (env : Env) (w : World) (t : Net.Target) (c : Choice) (o : Net.Outcome)
-    (outs : List Net.Outcome) (i : Nat) (evs : List Net.Ev)
-    (hp : Model.Url.parseUrl v6ok url = .ok t) (hc : getProxyInfo v6ok t.host t.secure p env = .ok c)
-    (ha : w.addrs = some (o :: outs))
-    (hd : Model.OpenSocket.openSocket timeout sockopt (o :: outs) = (.ok i, evs)) :
-    connect v6ok url timeout sockopt p env w =
-      let tgt := addrTarget t.host t.port c
-      let tr := CEv.resolve tgt.1 tgt.2.1 :: evs.map .sock
-      if tgt.2.2 then
-        match tunnel w.proxyReply with
-        | .error e => (.error e, tr ++ [.send i (tunnelRequest t.host t.port c.auth)] ++ [.sock (.close i)])
-        | .ok () =>
-          (.ok (i, t), tr ++ [.send i (tunnelRequest t.host t.port c.auth)]
-            ++ (if t.secure then [.tls i t.host] else []))
-      else (.ok (i, t), tr ++ (if t.secure then [.tls i t.host] else [])) := by
-  unfold connect
-  simp only [hp, hc, ha, hd]
-  rcases hat : addrTarget t.host t.port c with ⟨rh, rp, nt⟩
-  cases nt
-  · cases hs : t.secure <;> simp
-  · simp only [if_true]
-    cases ht : tunnel w.proxyReply with
-    | error e => simp
-    | ok u => cases hs : t.secure <;> simp
 
 open WS.Model.Proxy in
 /-- **C19_gate_connect** — a proxy reply that is not a 200 ends `connect()` with PROXY: the
